@@ -236,6 +236,8 @@ def run(ctx):
     )
     from .c11 import _r7_switch_histories
     _r7_switch_histories(ctx, r5)
+    from .c05 import _optimizer_construction
+    _optimizer_construction(ctx, r5, repo)  # what --optconf hands to the optimizer classes is what their fits run with; a later default optimizer is a default one
     r6 = ctx.rule(
         "C19.R6",
         "OPTCONF-PARSE (interpreted): `--optconf key=value` is split at the FIRST '=' only and handed to the YAML loader as the line "
